@@ -290,7 +290,7 @@ def hb_replay(what):
     """real-time scenarios with h = 1 s (margins of 300 ms around every threshold). -> (rust test, description)"""
     body = None
     if what in ('fire', 'timers', 'start'):
-        desc = 'h=1s: tx idle 1.3 s => one heartbeat frame; rx silent 1.4 s => still Ok; rx silent 2.4 s => MissedServerHeartbeats; h=0 => nothing ever'
+        desc = 'h=1s: tx idle 1.3 s => one heartbeat frame; rx silent 1.4 s => still Ok; rx silent 2.4 s => MissedServerHeartbeats; h=0 => nothing ever; a write at 0.1 s => next heartbeat by 1.45 s; two quiet periods of 1.4 s with traffic in between => alive'
         body = '''
     let mut bad: Vec<String> = Vec::new();
     { let mut i = mk_inner(); i.start_heartbeats(1); sleep_ms(1300); let r = res_name(i.process_heartbeat_timers());
@@ -301,6 +301,18 @@ def hb_replay(what):
       if r1 != "Ok" || r2 != "MissedServerHeartbeats" { bad.push(format!("rx-2.4s:{}:{}", r1, r2)); } }
     { let mut i = mk_inner(); i.start_heartbeats(0); sleep_ms(300); let r = res_name(i.process_heartbeat_timers());
       if r != "Ok" || i.outbuf.len() != 0 { bad.push(format!("h0:{}:{}", r, i.outbuf.len())); } }
+    // a write early in the period: the next heartbeat is due h after that write, not later (the timer is re-armed for the remainder)
+    { let mut i = mk_inner(); i.start_heartbeats(1); sleep_ms(100); i.outbuf.push_heartbeat(); let mut s = VS { data: vec![], pos: 0 };
+      let wr = res_name(i.write_to_stream(&mut s)); sleep_ms(950); let r1 = res_name(i.process_heartbeat_timers()); let l1 = i.outbuf.len();
+      sleep_ms(400); let r2 = res_name(i.process_heartbeat_timers());
+      if wr != "Ok" || r1 != "Ok" || l1 != 0 || r2 != "Ok" || i.outbuf.len() != heartbeat_bytes() { bad.push(format!("tx-rearm-remainder:{}:{}:{}:{}:{}", wr, r1, l1, r2, i.outbuf.len())); } }
+    // the server is quiet for 1.4 s twice with traffic in between: never 2 s of silence, so the connection stays up; then real silence is detected
+    { let mut i = mk_inner(); i.start_heartbeats(1); let mut fb = crate::frame_buffer::FrameBuffer::new(); let hbframe = vec![8u8, 0, 0, 0, 0, 0, 0, 0xCE];
+      sleep_ms(1400); let r1 = res_name(i.process_heartbeat_timers());
+      let mut s = VS { data: hbframe.clone(), pos: 0 }; let rr = res_name(i.read_from_stream(&mut s, &mut fb, |_, _| Ok(())));
+      sleep_ms(1400); let r2 = res_name(i.process_heartbeat_timers());
+      sleep_ms(1000); let r3 = res_name(i.process_heartbeat_timers());
+      if r1 != "Ok" || rr != "Ok" || r2 != "Ok" || r3 != "MissedServerHeartbeats" { bad.push(format!("rx-two-quiet-periods:{}:{}:{}:{}", r1, rr, r2, r3)); } }
 '''
     elif what == 'rx-activity':
         desc = 'h=1s: a read that returns bytes at 1.2 s keeps the connection alive at 2.3 s; a read that only would-block does not'
@@ -315,6 +327,11 @@ def hb_replay(what):
       let mut s = VS { data: vec![], pos: 0 }; let rr = res_name(i.read_from_stream(&mut s, &mut fb, |_, _| Ok(())));
       sleep_ms(1100); let r = res_name(i.process_heartbeat_timers());
       if rr != "Ok" || r != "MissedServerHeartbeats" { bad.push(format!("dead-after-wouldblock:{}:{}", rr, r)); } }
+    // bytes that do not complete a frame are traffic all the same
+    { let mut i = mk_inner(); i.start_heartbeats(1); let mut fb = crate::frame_buffer::FrameBuffer::new(); sleep_ms(1200);
+      let mut s = VS { data: hbframe[..4].to_vec(), pos: 0 }; let rr = res_name(i.read_from_stream(&mut s, &mut fb, |_, _| Ok(())));
+      sleep_ms(1100); let r = res_name(i.process_heartbeat_timers());
+      if rr != "Ok" || r != "Ok" { bad.push(format!("alive-after-partial-frame:{}:{}", rr, r)); } }
 '''
     elif what == 'tx-activity':
         desc = 'h=1s: a successful write at 0.7 s postpones the next heartbeat beyond 1.3 s'
